@@ -41,6 +41,7 @@
       [a >= b] is [fleb b a] (values are not NaN). *)
 From Coq Require Import List ZArith Bool Floats.SpecFloat.
 From AG Require Import F64.
+From AG Require Generated.
 Import ListNotations.
 Open Scope Z_scope.
 
@@ -245,3 +246,7 @@ Definition ckms_run (err : f64) (vals : list f64) (q : f64) : option (Z * f64) :
 
 Definition ckms_samples (st : ckms_state) : list (f64 * Z * Z) :=
   map (fun e => (e_v e, e_g e, e_d e)) (flat (st_data st)).
+
+(** the sketch's error bound as the source writes it (a decimal literal,
+    [Generated.ckms_error]): the double nearest 0.001 *)
+Definition ckms_error_f : f64 := f_of_dec false (fst Generated.ckms_error) (snd Generated.ckms_error).
